@@ -483,7 +483,7 @@ fn main() {
         check_word::<i64>(&word, &mut ev, 1_000_000 + k, &[2]);
         ev.add("long_vectors", 1);
     }
-    if args.only.is_none() && args.shard == 0 {
+    if args.blocks() {
         builder_clause(&mut ev);
     }
     let complete = (1..=max_pairs).all(|l| (0..3).all(|p| ev.hist_get("word_lengths_completed", &format!("{l}:{p}")) == 1));
